@@ -1,3 +1,4 @@
+import inspect
 import re
 import typing
 from collections import deque
@@ -709,10 +710,14 @@ class Constraints:
                 ):
                     resolved = False
                     for arg in self.origin_type.__args__:
+                        if isinstance(arg, ForwardRef):
+                            # a reference that is not evaluated yet: it cannot be judged at declaration
+                            resolved = True
+                            break
                         if {arg, _t} in TYPE_EXACT_TOLERANCE:
                             resolved = True
                             break
-                        if issubclass(arg, _t):
+                        if inspect.isclass(arg) and issubclass(arg, _t):
                             resolved = True
                             break
                     if not resolved:
@@ -758,7 +763,7 @@ class Constraints:
                         and self.origin_type.combinator
                     ):
                         if not any(
-                            issubclass(tp, origin_types)
+                            isinstance(tp, ForwardRef) or (inspect.isclass(tp) and issubclass(tp, origin_types))
                             for tp in self.origin_type.__args__
                         ):
                             raise exc.ConfigError(
